@@ -101,8 +101,8 @@ def install_observers(g, obs, target_hi=None, target_lo=None):
         MolGen._sx_orig_init = MolGen.__init__
         MolGen._sx_orig_attach = MolGen.attach_other
 
-    def init(self, token):
-        MolGen._sx_orig_init(self, token)
+    def init(self, token, *args, **kwargs):
+        MolGen._sx_orig_init(self, token, *args, **kwargs)
         o = OBS[0]
         if o is not None:
             self._sx_serial = len(o.molgens)
@@ -112,10 +112,10 @@ def install_observers(g, obs, target_hi=None, target_lo=None):
             o.molgens.append((self, token))
             o.events.append(("new", token))
 
-    def attach(self, self_bond_idx, other, other_bond_idx):
+    def attach(self, self_bond_idx, other, other_bond_idx, *args, **kwargs):
         o = OBS[0]
         if o is None:
-            return MolGen._sx_orig_attach(self, self_bond_idx, other, other_bond_idx)
+            return MolGen._sx_orig_attach(self, self_bond_idx, other, other_bond_idx, *args, **kwargs)
         rec = {
             "self_idx": self_bond_idx,
             "other_idx": other_bond_idx,
@@ -132,7 +132,7 @@ def install_observers(g, obs, target_hi=None, target_lo=None):
             "self_residues": list(getattr(self, "_sx_residues", [])),
             "other_token": getattr(other, "_sx_token", Ref(None)).obj,
         }
-        res = MolGen._sx_orig_attach(self, self_bond_idx, other, other_bond_idx)
+        res = MolGen._sx_orig_attach(self, self_bond_idx, other, other_bond_idx, *args, **kwargs)
         rec["after_open"] = [bd_state(b) for b in res.bond_descriptors]
         rec["natoms_after"] = res._mol.GetNumAtoms()
         rec["nbonds_after"] = res._mol.GetNumBonds()
